@@ -108,6 +108,25 @@ func genC01(g *Rng, tier string, emit func(Op)) {
 					setAt(t2, lp, I(nv))
 					emit(verifyDOp(kp.id, t2, ctx, nonce, false, "alter1"+classOfPath(lp), "reject"))
 				}
+				// forgery without any credential: with a non-unit A (0, N, 2N) every power of A is 0 and
+				// so is the reconstructed commitment, whatever is "disclosed"; the challenge is
+				// computed over (A, 0) by the forger himself
+				if mask == masks[0] {
+					for _, a := range []*big.Int{bi(0), new(big.Int).Set(pk.N), new(big.Int).Lsh(pk.N, 1)} {
+						t2 := cloneTree(tree).(T)
+						t2["A"] = I(a)
+						fc := gabi.VerifCreateChallenge(ctx, nonce, []*big.Int{a, bi(0)}, false)
+						t2["c"] = I(fc)
+						for k := range t2["a_disclosed"].(T) {
+							t2["a_disclosed"].(T)[k] = I(g.bits(int(lm)))
+						}
+						emit(verifyDOp(kp.id, t2, ctx, nonce, false, "forged-nonunit-A", "reject").with("fkey", "C01/nonunit-A"))
+						// the same with the reduced value in the hash
+						t3 := cloneTree(t2).(T)
+						t3["c"] = I(gabi.VerifCreateChallenge(ctx, nonce, []*big.Int{new(big.Int).Mod(a, pk.N), bi(0)}, false))
+						emit(verifyDOp(kp.id, t3, ctx, nonce, false, "forged-nonunit-A", "reject").with("fkey", "C01/nonunit-A"))
+					}
+				}
 				// pairwise alterations (sample)
 				for k := 0; k < 4 && len(leaves) > 1; k++ {
 					a, b := g.intn(len(leaves)), g.intn(len(leaves))
